@@ -313,7 +313,25 @@ def fresh_replay(prop: str, path: str, hashseed: str = "0") -> Optional[str]:
 
 
 # --------------------------------------------------------------------------- batch
+def _limit_memory():
+    """Cap the address space of a child (default 8 GB): code under test that runs away with memory -- a wrong
+    shape turned into an allocation of many gigabytes -- then fails with MemoryError inside its own run, where the
+    engines see it as the exception it is, instead of waking the kernel's out-of-memory killer (which takes the worker,
+    or an innocent neighbour, down with SIGKILL and turns a violation into a harness error)."""
+    try:
+        import resource
+
+        cap = int(float(os.environ.get("VERIF_MEM_GB", "8")) * (1 << 30))
+        soft, hard = resource.getrlimit(resource.RLIMIT_AS)
+        if hard != resource.RLIM_INFINITY:
+            cap = min(cap, hard)
+        resource.setrlimit(resource.RLIMIT_AS, (cap, hard))
+    except Exception:  # noqa: BLE001 -- a platform without the limit: carry on as before
+        pass
+
+
 def _child_main(conn, fn, args):
+    _limit_memory()
     try:
         conn.send(fn(*args))
     except BaseException:  # noqa: BLE001 -- report, the parent decides
